@@ -292,10 +292,14 @@ def flow_item(name, dim, cond, inv, rng, scale=0.5, ks=True):
 
 def spec_item(rng, dim, shape):
     """hand-built Transformed over onto-R layers (splines, negative scales, LeakyTanh, Invert, TriangularAffine ...)."""
-    while True:
-        spec = ds.gen_dist_spec(rng, shape, depth=int(rng.integers(1, 4)), nest=int(rng.integers(1, 3)))
-        if spec["base"] in ("stdnormal", "normal") and all(_onto(s) for s in spec["layers"]):
-            return dict(kind="spec", spec=spec, dim=dim, sample_key=int(rng.integers(0, 2**31)), ks=True)
+    ds.MILD[0] = dim == 2     # the fixed 2-D tensor grid resolves only features of about a panel width (1-D is adaptive)
+    try:
+        while True:
+            spec = ds.gen_dist_spec(rng, shape, depth=int(rng.integers(1, 3 if dim == 2 else 4)), nest=int(rng.integers(1, 3)))
+            if spec["base"] in ("stdnormal", "normal") and all(_onto(s) for s in spec["layers"]):
+                return dict(kind="spec", spec=spec, dim=dim, sample_key=int(rng.integers(0, 2**31)), ks=True)
+    finally:
+        ds.MILD[0] = False
 
 
 def _onto(s):
